@@ -307,15 +307,19 @@ class ComposedNode(ConfigNode):
                 return ConfigNode.ayns.on_merge_impl(self, path, other)
 
             pruned = False
+            existed = None # (the paths that stood here before the pruning: not new for a !notnew value, whatever has become of them)
             if other.ayns.delete:
-                removed = set(self.__dict__.get('_dropped_paths', ())) # (a function node given another target has dropped its arguments already)
+                existed = removed = set(self.__dict__.get('_dropped_paths', ())) # (a function node given another target has dropped its arguments already)
                 def maybe_keep(child_path, node):
                     # child_path is absolute (it starts with the path of self), "other" is looked up relative to itself
                     other_node = other.ayns.get_first_not_missing_node(child_path[len(path):])
                     return node.ayns.has_priority_over(other_node)
 
                 def holes(list_path):
-                    return 'partial' if isinstance(other.ayns.get_node(list_path[len(path):], incomplete=None), list) else None
+                    # (what meets the list element-wise: a list, or a mapping whose keys are indices of it - not a function node)
+                    from .function import FunctionNode
+                    met = other.ayns.get_node(list_path[len(path):], incomplete=None)
+                    return 'partial' if isinstance(met, (list, dict)) and not isinstance(met, FunctionNode) else None
 
                 self.ayns.filter_nodes(maybe_keep, prefix=path, removed=removed, holes=holes)
                 pruned = True
@@ -333,7 +337,7 @@ class ComposedNode(ConfigNode):
             for key, value in other._children.items():
                 child = self.ayns.get_child(key, None)
                 if child is None:
-                    value.ayns._require_all_new(path + [key], f'last parent: {_this_path!r}, from file: {self.ayns.source_file!r}')
+                    value.ayns._require_all_new(path + [key], f'last parent: {_this_path!r}, from file: {self.ayns.source_file!r}', exceptions=existed)
                     self.ayns.set_child(key, value)
                 else:
                     merge = isinstance(child, ComposedNode)
@@ -348,7 +352,7 @@ class ComposedNode(ConfigNode):
                             self.ayns.set_child(key, possibly_new_child)
                     else:
                         if possibly_new_child is not child:
-                            possibly_new_child.ayns._require_all_new(path + [key], f'last parent: {_this_path!r}, from file: {self.ayns.source_file!r}', include_self=False)
+                            possibly_new_child.ayns._require_all_new(path + [key], f'last parent: {_this_path!r}, from file: {self.ayns.source_file!r}', exceptions=existed, include_self=False)
                             if ComposedNode._leaves_nothing(possibly_new_child) and possibly_new_child.ayns.explicit_delete:
                                 removed.append(key)
                             else:
@@ -377,6 +381,8 @@ class ComposedNode(ConfigNode):
         def _require_all_new(self, path, reason, exceptions=None, include_self=True):
             seq = self.ayns.nodes_with_paths(prefix=path, include_self=include_self)
             for p, n in seq:
+                if n.__dict__.get('_is_hole'):
+                    continue # (not an entry anybody writes, see filter_nodes)
                 if not n.ayns.allow_new and (exceptions is None or p not in exceptions):
                     raise ValueError(f'Node {p!r} (source file: {n.ayns.source_file!r}) requires that the destination already exists but the current config tree does not contain a node under this path ({reason})')
 
@@ -387,7 +393,6 @@ class ComposedNode(ConfigNode):
         hole = ConfigNode(None)
         hole._priority = ConfigNode.WEAK - 1 # (below anything a document can say: whatever meets it takes its place)
         hole._default_safe = parent._default_safe
-        hole._allow_new = True # (not an entry a !notnew document writes)
         hole._is_hole = True
         return hole
 
